@@ -13,4 +13,4 @@ def tasks(tier):
 
 
 LEVEL_TEXT = ('Proof: per environment a rule predicate legal(state, a) written from the documented rules; for every listed configuration and ALL states satisfying the environment invariant, the mask handed out by step and by reset (and cached in the state) equals legal(new state) for EVERY action of the action space (element-wise obligations), legal actions are never treated as invalid and illegal ones always are (own reaction).')
-LEVEL_NOTE = ('rule predicates transcribed from the docs (contracts/<env>.py); per-configuration; invariants inductive (re-proved for the successor state); floats as reals.')
+LEVEL_NOTE = ('rule predicates transcribed from the docs (contracts/<env>.py); per-configuration; invariants inductive (re-proved for the successor state); floats as reals; MMST and MultiCVRP masks have their own modules (mmst_c04.py, multi_cvrp_c04.py); the generator post-conditions assumed at reset are discharged on the real generators (genpost:* tasks).')
